@@ -24,9 +24,9 @@ CLASSES = {
 
 
 def plan(tier, seed):
-    k = 12 if tier == "quick" else 400
+    k = 32 if tier == "quick" else 400
     shards = [{"kind": "lib", "cls": c, "seed": seed, "shard": i, "n": 250} for c in CLASSES for i in range(k)]
-    kc = 12 if tier == "quick" else 200
+    kc = 24 if tier == "quick" else 200
     shards += [{"kind": "cli", "seed": seed, "shard": i, "n": 20} for i in range(kc)]
     return shards
 
